@@ -44,6 +44,10 @@ def gen_cases(tier, seed):
             for rep in range(1 if q else 2):
                 cases.append({"type": "estimator", "entry": entry, "wt": wt, "dt": float(rng.choice([0.3, 0.5])), "s": int(rng.integers(1 << 30)),
                               "group": "est-%s-%s-%d" % (entry, wt, rep), "cost": 30})
+    for wt in ("rhf", "uhf"):
+        for rep in range(1 if q else 4):
+            cases.append({"type": "replay", "wt": wt, "shape": [int(rng.integers(2, 4)), int(rng.integers(2, 4)), int(rng.integers(2, 4))], "dt": 0.05,
+                          "s": int(rng.integers(1 << 30)), "group": "rpl-%s-%d" % (wt, rep), "cost": 25})
     for wt in (("uhf",) if q else ("rhf", "uhf")):
         cases.append({"type": "repro", "wt": wt, "entry": "plain", "s": int(rng.integers(1 << 30)), "group": "rep-%s" % wt, "cost": 40})
         cases.append({"type": "batch", "wt": wt, "entry": str(rng.choice(["plain", "ad_nosr"])), "s": int(rng.integers(1 << 30)), "group": "bat-%s" % wt, "cost": 50})
@@ -370,5 +374,37 @@ def run_callable(case):
             "sample": {"entry": case["entry"], "kind": case["kind"], **info}, "counters": {"entry_calls": 1}}
 
 
+def run_replay(case):
+    """multi-block estimator (several energy blocks inside several reconfiguration blocks) against an independent step-by-step replay"""
+    import jax.numpy as jnp
+    from jax import random
+
+    from ad_afqmc import sampling
+    from checks.c08 import replay_call
+
+    rng = np.random.default_rng(case["s"])
+    nw = 8
+    S = build(case["wt"], rng, nw, case["dt"])
+    w0 = afqmc.noisy_walkers(rng, S, nw, noise=0.5, walker_type=case["wt"])
+    smp = sampling.sampler(n_prop_steps=case["shape"][0], n_ene_blocks=case["shape"][1], n_sr_blocks=case["shape"][2], n_blocks=1)
+    pd = S["prop"].init_prop_data(S["trial"], S["wave_data"], S["ham_data"], w0)
+    pd["key"] = random.PRNGKey(case["s"] % 65521)
+    pd["weights"] = jnp.array(np.random.default_rng(case["s"] + 3).uniform(0.1, 3.0, size=nw))
+    pd_r = afqmc.copy_pd(pd)
+    worst = 0.0
+    es = []
+    for call in range(2):
+        e, pd = smp.propagate_phaseless(S["ham"], S["ham_data"], S["prop"], pd, S["trial"], S["wave_data"])
+        er, pd_r = replay_call(smp, S["ham_data"], S["prop"], pd_r, S["trial"], S["wave_data"])
+        worst = max(worst, abs(float(e) - er) / max(1.0, abs(er)))
+        es.append([float(e), er])
+        pd = S["prop"].orthonormalize_walkers(pd)
+        pd_r = S["prop"].orthonormalize_walkers(pd_r)
+    events = [judge("replay/multi-block-estimator", worst, 1e-9, "C12/replay/%s" % case["wt"], shape=case["shape"], energies=es)]
+    return {"events": events, "nontrivial": True, "sample": {"wt": case["wt"], "shape": case["shape"], "sampler_vs_replay": es}, "counters": {"entry_calls": 2}}
+
+
 def run_case(case):
+    if case["type"] == "replay":
+        return run_replay(case)
     return {"equal": run_equal, "estimator": run_estimator, "repro": run_repro, "batch": run_batch, "callable": run_callable}[case["type"]](case)
